@@ -69,6 +69,7 @@ void h_empty_calibration(void)
     v = vnacal_get_fmin(vcp, ci);
     REACH("fmin of an empty calibration returned");
     v = vnacal_get_fmax(vcp, ci);
+    CHECK(ghost_err_calls == 0, "the vnacal_get_* functions do not invoke the error function (vnacal(3))");
     v = _vnacal_calibration_get_fmin_bound(calp);
     CHECK(v == HUGE_VAL || v != v || v > 1.0e300, "no finite frequency lies above the lower bound of an empty calibration");
     v = _vnacal_calibration_get_fmax_bound(calp);
